@@ -36,10 +36,10 @@ def main(tier):
     from checks import trav, lock, state
     from travsim import scenarios
     t0 = time.monotonic()
-    n_trav = 6 if tier == "quick" else 40
+    n_trav = 8 if tier == "quick" else 48
     n_other = 6 if tier == "quick" else 40
     jobs = []
-    for i, prop in enumerate(["C01", "C02", "C04", "C05", "C10", "C09", "C16", "C07", "C15", "C20"] * 4):
+    for i, prop in enumerate(["C08", "C03", "C01", "C02", "C04", "C05", "C10", "C09", "C16", "C07", "C15", "C20"] * 4):
         if len([j for j in jobs if j[0] == "travsim"]) >= n_trav:
             break
         jobs.append(("travsim", trav.execute, scenarios.plan_for(prop, derive_seed(7, prop, "selftest", i), "quick")))
